@@ -1083,6 +1083,13 @@ static htp_status_t htp_martp_process_aside(htp_mpartp_t *parser, int matched) {
 }
 
 htp_status_t htp_mpartp_finalize(htp_mpartp_t *parser) {
+    // Data set aside while looking for a boundary may be all we have seen of the
+    // last part (e.g., an epilogue delivered in one piece that ends with a newline).
+    // Release it now, which creates the part, so that it is not lost.
+    if ((parser->current_part == NULL) && (bstr_builder_size(parser->boundary_pieces) > 0)) {
+        htp_martp_process_aside(parser, 0);
+    }
+
     if (parser->current_part != NULL) {
         // Process buffered data, if any.
         htp_martp_process_aside(parser, 0);
